@@ -1,4 +1,22 @@
-"""C05 - access is granted exactly when a credential check succeeded.  Sidecar contracts.  (work in progress)"""
+"""C05 - access is granted exactly when a credential check succeeded.  Sidecar contracts.
+
+Structure (DESIGN.md 4, C05):
+  (f)  restriction look-ups: get/check_key/certificate_option/permission as decision tables
+  (b)  auth.py: every _Server*Auth reaches send_success() only where its credential predicate holds for ITS user,
+       while it is not cancelled and still bound to the connection's user (rely B); a valid credential is admitted
+  (d,e) connection.py: _process_userauth_request / _finish_userauth / send_userauth_success / send_userauth_failure
+       preserve the binding invariant J and give the guarantee G that justifies B; requests after SUCCESS are ignored
+  (c)  validate_public_key / _validate_client_public_key / _validate_openssh_certificate / validate_host_based_auth:
+       True only for a signature by the key authorised for this user over String(session_id) + request
+  (g)  client: _process_userauth_success only with is_client and an attempt outstanding
+  K    Auth.cancel / create_task / __init__: the task working for an auth object is the one cancel() stops
+  scan: writers of the auth state and callers of send_userauth_success (extra_checks)
+
+Genuine defects of the pinned tree that make obligations fail (replayed natively, notes/findings/c05_*.py):
+  F7   _process_userauth_request#post(class-inv-J), #post(guarantee-live-auth-keeps-its-user)
+  F7b  _finish_userauth#pre-at-call(self.send_userauth_success:no-auth-required-was-decided-for-the-current-user)
+  F9   _finish_userauth#pre-at-call(lookup_server_auth:restrictions-are-pristine-when-an-attempt-starts)
+"""
 import z3
 from pyvc.contracts import *
 from pyvc.engine import LoopSpec, Out, Prove
@@ -72,10 +90,6 @@ def key_opt_table(c):
                   z3.Implies(z3.Not(present), is_default))
 
 
-def _frame_opts(c):
-    return z3.And(c.new('_key_options') is c.old('_key_options') or z3.BoolVal(True))
-
-
 check_certificate_permission = Spec(
     PROP, 'connection', 'SSHServerConnection.check_certificate_permission', self_class='SSHServerConnection',
     params=dict(permission='str'), classes=SRV_OPT_CLASSES,
@@ -135,7 +149,7 @@ def not_cancelled(ex, st):
     return z3.BoolVal(True)
 
 
-def rely_outs(cx, ret, event, exc=None, keep_opts=True):
+def rely_outs(cx, ret, event, exc=None):
     """An await inside auth code: other handlers of the connection may run.  If this task resumes it has not been
     cancelled (asyncio) and B is preserved (guarantee of the connection-side functions)."""
     ex, st = cx.ex, cx.st
@@ -797,13 +811,6 @@ def vpk_post(c):
     # every look-up is for the user and key blob of this call
     for _n, (args, _k) in lookups:
         conj.append(z3.And(args[0].z == c.arg('username'), args[1].z == c.arg('key_data')))
-    # the key used: first truthy look-up result (certificate first)
-    accepted = None
-    for _n, (args, k) in lookups:
-        kn, kv = opt_parts(k)
-        if accepted is None and not z3.is_true(z3.simplify(kn)):
-            # path conditions decide which look-up produced the key; take the one the path says is not None
-            pass
     verifies = c.events('verify')
     msg, sig, sid = c.arg('msg'), c.arg('signature'), c.old('_session_id')
     has_msg = z3.Length(msg) > 0
@@ -1011,8 +1018,8 @@ def voc_rejected(c):
     n, _k = opt_parts(c.result_v)
     if c.events('await_result'):
         return z3.BoolVal(True)
-    return z3.Implies(n, c.eq(c.oldv('_cert_options'), c.newv('_cert_options')) if False else
-                      z3.BoolVal(c.newv('_cert_options') is c.oldv('_cert_options')))
+    # (the field still holds the very value object it held at entry: no store happened)
+    return z3.Implies(n, z3.BoolVal(c.newv('_cert_options') is c.oldv('_cert_options')))
 
 
 validate_openssh_certificate = Spec(
@@ -1481,6 +1488,9 @@ ASSUMPTIONS += [
     'not reached: _ServerGSSMICAuth._start/_process_token/_process_error_token (no success path), '
     '_validate_x509_certificate_chain, channel-level enforcement of the stored restrictions '
     '(channel.py _process_pty_req_request/_start_session: see C20), the client credential sources (agent, PKCS#11)',
+    'B holds when an auth task first runs / when a packet is dispatched to the auth object: conn._auth is that '
+    'object (_finish_userauth#post(new-attempt-is-current); dispatch gate of C06) and it was created for '
+    'conn._username with pristine restrictions (pre-at-call obligations at lookup_server_auth in _finish_userauth)',
     'ServerAuth subclasses are verified against a ghost view of the connection (class Conn: _username, '
     '_auth_complete, ghost_auth_is_self, ghost_opts_ok) - the view is tied to the real fields by J/G above',
 ]
